@@ -6,6 +6,7 @@ from framework import Violation
 from props import register
 from props import httpcommon as hc
 
+MULTI = {'multi.test': ['10.0.3.1', '10.0.0.1']}   # resolved by the DNS peer; 10.0.3.1 refuses connections (squid then marks it bad and uses the other)
 HOSTS = {'a.test': '10.0.0.1', 'b.test': '10.0.0.2', 'www.b.test': '10.0.0.2', 'c.example': '10.0.1.1', 'deep.sub.c.example': '10.0.1.1'}
 CLIENTS = ['10.1.0.1', '10.1.0.2', '10.2.0.1', '192.168.5.5', '10.2.0.2', '10.1.1.0', '10.1.0.255', '11.0.0.0', '192.169.0.0']   # incl. the neighbours of every configured boundary
 PORTS = [80, 8000, 8080, 79, 81, 1024, 1025, 7999, 8001, 8079, 8081]   # configured values and the ports just below and above them
@@ -16,7 +17,7 @@ def gen_acl(rng, name):
     if t == 'src':
         vals = rng.sample(['10.1.0.1', '10.1.0.0/24', '10.0.0.0/8', '192.168.0.0/16', '10.1.0.2-10.2.0.1', '10.2.0.1/32'], rng.randint(1, 2))
     elif t == 'dst':
-        vals = rng.sample(['10.0.0.1', '10.0.0.0/24', '10.0.1.0/24', '10.0.0.2/32', '10.0.0.0/8'], rng.randint(1, 2))
+        vals = rng.sample(['10.0.0.1', '10.0.0.0/24', '10.0.1.0/24', '10.0.0.2/32', '10.0.0.0/8', '10.0.3.0/24', '10.0.3.1'], rng.randint(1, 2))
     elif t == 'dstdomain':
         vals = rng.sample(['.test', 'a.test', '.b.test', 'c.example', '.example', 'sub.c.example', '.sub.c.example'], rng.randint(1, 2))
         if '.test' in vals: vals = [v for v in vals if not v.endswith('.test') or v == '.test']
@@ -40,8 +41,8 @@ def acl_match(acl, req):
             elif ip in ipaddress.ip_network(v, strict=False): return True
         return False
     if t == 'dst':
-        ip = ipaddress.ip_address(HOSTS[req['host']])
-        return any(ip in ipaddress.ip_network(v, strict=False) for v in acl['vals'])
+        ips = [ipaddress.ip_address(x) for x in (MULTI.get(req['host']) or [HOSTS[req['host']]])]     # dst matches when any address of the host matches
+        return any(ip in ipaddress.ip_network(v, strict=False) for ip in ips for v in acl['vals'])
     if t == 'dstdomain':
         h = req['host'].lower()
         for v in acl['vals']:
@@ -82,7 +83,7 @@ class C45(hc.PProp):
     thorough_runs = 6000
     quick_wall = 50
     thorough_wall = 900
-    assumptions = ['host names resolve through hosts_file (static), so dst ACLs need no asynchronous DNS; requests always use host names (dstdomain on IP literals needs reverse DNS)']
+    assumptions = ['host names resolve through hosts_file (static) except multi.test (DNS peer, two addresses, the first one refuses connections); requests always use host names (dstdomain on IP literals needs reverse DNS)']
     expected_probes = ['allowed_judged', 'denied_judged']
 
     def plan(self, rng, tier, index):
@@ -95,13 +96,17 @@ class C45(hc.PProp):
         lines += ['http_access %s %s' % (r['action'], ' '.join(('!' if neg else '') + n for neg, n in r['acls'])) for r in rules]
         plan = hc.std_plan(rng, {'cache': 'none', 'no_default_access': True, 'lines': lines}, hostile=False)
         plan['acls'] = acls; plan['rules'] = rules
-        plan['reqs'] = [{'id': index * 100 + k, 'src': rng.choice(CLIENTS), 'host': rng.choice(sorted(HOSTS)), 'port': rng.choice(PORTS), 'method': rng.choice(METHODS)} for k in range(rng.randint(8, 30))]
+        plan['reqs'] = [{'id': index * 100 + k, 'src': rng.choice(CLIENTS), 'host': rng.choice(sorted(HOSTS) + ['multi.test', 'multi.test']), 'port': rng.choice(PORTS), 'method': rng.choice(METHODS)} for k in range(rng.randint(8, 30))]
         plan['_lists'] = ['reqs']
         return plan
 
     def build(self, plan):
         scn = self.new_scn(plan)
         scn.hosts = ''.join('%s %s\n' % (ip, h) for h, ip in sorted(HOSTS.items()))
+        d = scn.dns()
+        for h, ips in MULTI.items():
+            d.add('host %s 1 addrs %s' % (h, ','.join(ips))); d.add('host %s 28 addrs -' % h)
+        scn.server('refuser', '10.0.3.1', 80).add('connect * refuse')
         n = 0
         for ip in sorted(set(HOSTS.values())):
             for port in PORTS:
